@@ -115,12 +115,17 @@ QUICK = ["negative", "add", "where", "sum-axis0", "mean-axis1", "var-axis0", "ar
          "index-array", "roll", "repeat", "reshape", "rechunk", "matmul", "qr", "map_blocks", "chain5-fusable", "diamond-fusable", "fan-in3",
          "reduce-of-chain", "tril", "pad", "unstack", "store", "mean-axis0", "repeated-heavy-pred", "repeated-heavy-pred-3", "argmax-axis1", "slice-step-offset",
          "negative-of-repeat"]
+LOCAL_STORE_CASES = [("negative", "square", True), ("add", "square", True), ("sum-axis0", "square", True), ("transpose", "square", True), ("rechunk", "square", True),
+                     ("concat", "square", True), ("stack", "square", False), ("chain5-fusable", "square", True), ("reshape", "square", True), ("cumsum-axis1", "square", True),
+                     ("argmax", "square", True), ("argmax-axis1", "square", True), ("roll", "square", True), ("slice-step", "skinny", True), ("slice-step", "skinny", False),
+                     ("index-array", "square", True), ("index-array", "square", False)]
 # operations also measured under the legacy optimizer (optimize_function=simple_optimize_dag): optimize = "legacy"
 LEGACY = ["negative", "chain5-fusable", "negative-of-repeat", "abs-of-widening", "astype-f4"]
 
 
 def measure(item):
-    name, geom, dtype, comp, optimize = item
+    name, geom, dtype, comp, optimize = item[:5]
+    store_kind = item[5] if len(item) > 5 else "memory"
     import cubed
     import cubed.random
     import zarr
@@ -131,22 +136,31 @@ def measure(item):
     rows = []
     probs = []
     w = World()
+    import os as _os, tempfile as _tf, shutil as _sh
+    LOCAL = store_kind == "local"
+    tmpd = _tf.mkdtemp(prefix="vkit-c03-") if LOCAL else None
+
+    def mkstore(label):
+        if LOCAL:
+            from zarr.storage import LocalStore
+            return LocalStore(_os.path.join(tmpd, label))
+        return w.store(label)
     try:
-        src = w.store("src")
+        src = mkstore("src")
         za = zarr.create_array(src, shape=shape, dtype=dtype, chunks=chunks, compressors=None)
         data = (np.arange(int(np.prod(shape)), dtype="f8").reshape(shape) % 977 + 1).astype(dtype)
         za[:] = data
-        src2 = w.store("src2")
+        src2 = mkstore("src2")
         zb = zarr.create_array(src2, shape=shape, dtype=dtype, chunks=chunks, compressors=None)
         zb[:] = data[::-1]
         del data
 
         def run(traced):
-            inter = w.store(f"inter{int(traced)}")
+            inter = mkstore(f"inter{int(traced)}")
             spec = cubed.Spec(intermediate_store=inter, allowed_mem="2GB", reserved_mem=RESERVED, zarr_compressor=comp)
             a = cubed.from_zarr(src, spec=spec)
             if OPS[name] == "store":
-                tgt = w.store(f"tgt{int(traced)}")
+                tgt = mkstore(f"tgt{int(traced)}")
                 out = cubed.store([_xp().negative(a)], [tgt], compute=False)
             elif OPS[name] == "random":
                 out = (cubed.random.random(shape, chunks=chunks, spec=spec),)
@@ -180,7 +194,10 @@ def measure(item):
             cubed.compute(*out, executor=ex, optimize_graph=bool(optimize), _return_in_memory_array=False, **okw)
             proj = {o.name: o.node["primitive_op"].projected_mem for o in ex.ops}
             kinds = {o.name: o.node.get("op_name") for o in ex.ops}
-            inter._store_dict.clear()
+            if LOCAL:
+                _sh.rmtree(_os.path.join(tmpd, f"inter{int(traced)}"), ignore_errors=True)
+            else:
+                inter._store_dict.clear()
             return recs, proj, kinds
 
         try:
@@ -207,20 +224,28 @@ def measure(item):
             if w2[0] < worst[0]:
                 worst = w2  # the confirmed (reproducible) figure is the smaller of the two measurements
             if w2[4] > w2[5] + NONDATA_SLACK and first[4] > first[5] + NONDATA_SLACK:
-                probs.append((dict(kind="task-exceeds-projected-mem", op=name, cubed_op=str(worst[2]), optimize=optimize),
-                              dict(name=name, geom=geom, dtype=dtype, compressor=comp, optimize=optimize),
-                              f"{name} [{geom} {shape}/{chunks} {dtype} compressor={comp} optimize={optimize}]: task {worst[3]} of op {worst[2]} "
+                sig = dict(kind="task-exceeds-projected-mem", op=name, cubed_op=str(worst[2]), optimize=optimize)
+                case = dict(name=name, geom=geom, dtype=dtype, compressor=comp, optimize=optimize)
+                if LOCAL:
+                    sig.update(store="local", local_case=f"{name}/{geom}/{'optimized' if optimize else 'unoptimized'}")
+                    case["store"] = "local"
+                probs.append((sig, case,
+                              f"{name} [{geom} {shape}/{chunks} {dtype} compressor={comp} optimize={optimize}{' store=LocalStore' if LOCAL else ''}]: task {worst[3]} of op {worst[2]} "
                               f"allocated {worst[4]} bytes (again: {w2[4]}), projected_mem is {worst[5]} (ratio {worst[0]:.3f})"))
         cnt["computations"] += 1
-        rows.append(dict(op=name, geom=geom, dtype=dtype, compressor=comp, optimize=optimize, tasks=len(recs),
+        if LOCAL:
+            cnt["local_store_computations"] += 1
+        rows.append(dict(op=name, geom=geom, dtype=dtype, compressor=comp, optimize=optimize, store=store_kind, tasks=len(recs),
                          worst_ratio=round(worst[0], 3) if worst else None, worst_op=str(worst[2]) if worst else None))
         return cnt, probs, rows, None
     finally:
         w.dispose()
+        if tmpd:
+            _sh.rmtree(tmpd, ignore_errors=True)
 
 
 def replay_case(case):
-    cnt, probs, rows, _ = measure((case["name"], case["geom"], case["dtype"], case["compressor"], case["optimize"]))
+    cnt, probs, rows, _ = measure((case["name"], case["geom"], case["dtype"], case["compressor"], case["optimize"], case.get("store", "memory")))
     return [Problem(sig, c, d) for sig, c, d in probs]
 
 
@@ -239,6 +264,10 @@ def run(ctx):
                 items.append((n, geom, "float64", None, True))
                 items.append((n, geom, "float32", "auto", True))
                 items.append((n, geom, "int32", "auto", True))
+    # a file-backed store allocates a buffer for every chunk it reads (the in-memory store hands out the stored bytes):
+    # a fixed set of computations is measured over zarr's LocalStore as well
+    for n, geom, opt in LOCAL_STORE_CASES:
+        items.append((n, geom, "float64", "auto", opt, "local"))
     tot = Counter()
     table = []
     declined = []
@@ -261,6 +290,7 @@ def run(ctx):
     ctx.set("tasks_measured", tot["tasks"])
     ctx.set("tasks_within_3pct_of_bound", tot["near_bound"])
     ctx.set("computations_remeasured", tot["remeasured"])
+    ctx.set("computations_over_local_store", tot["local_store_computations"])
     ctx.set("declined", declined[:20])
     ctx.set("tightest", table[:12])
     ctx.set("rule", "computation = operation x geometry x dtype x compressor x optimize; every task of every op of its executed plan is measured; "
